@@ -15,6 +15,7 @@ import (
 	"context"
 	"fmt"
 	"hash/fnv"
+	"os"
 	"runtime"
 	"strings"
 	"sync"
@@ -38,6 +39,7 @@ const (
 	verifKindDeaf            // ignores ctx completely
 	verifKindSpin            // busy loop with Gosched, polls ctx.Err
 	verifKindWaiter          // long work (so that it is usually cancelled), small latency
+	verifKindStubborn        // waits for the cancellation, then STAYS ALIVE until the harness lets it go
 	verifNumKinds
 )
 
@@ -57,6 +59,8 @@ type verifCfg struct {
 	invDelay []time.Duration  // one per invocation
 	invKinds [][]verifBodyCfg // per invocation: behaviour of execution 1,2,... (last one repeats)
 	prio     [][]verifPrioPair
+	// stubborn scenarios: the prioritized goroutines start only after this many stubborn bodies are running
+	prioWaitStub int
 }
 
 type verifFailure struct{ sig, what string }
@@ -83,9 +87,19 @@ type verifScenario struct {
 	returned   []int32
 	execs      []int64
 	maxAlive   int64
+
+	// stubborn bodies: once cancelled they stay alive until stubRelease is closed (by the oracle, when it
+	// sees something that must not happen while they are alive) or until `hold` has elapsed
+	hold        time.Duration
+	stubRelease chan struct{}
+	stubOnce    sync.Once
+	stubEntered int64
+	stubHeld    int64 // stubborn bodies that were cancelled and held
+	prioOver    int32 // all prioritized goroutines have finished
 }
 
-var verifCur atomic.Pointer[verifScenario]
+// manager -> scenario; several scenarios may run in parallel
+var verifScens sync.Map
 
 // after the first not-cancelled failure the bodies stop waiting long (the run only has to end)
 var verifShortWait atomic.Bool
@@ -94,6 +108,11 @@ func (sc *verifScenario) fail(sig, what string) {
 	sc.mu.Lock()
 	sc.failLocked(sig, what)
 	sc.mu.Unlock()
+	switch sig {
+	case "self-overlap", "over-cap", "alive-at-return", "no-progress":
+		// the violation is on record: let the stubborn bodies go so that the scenario can end
+		sc.stubOnce.Do(func() { close(sc.stubRelease) })
+	}
 }
 
 func (sc *verifScenario) failLocked(sig, what string) {
@@ -105,10 +124,11 @@ func (sc *verifScenario) failLocked(sig, what string) {
 
 // verifHook is installed as VerifTrace.
 func verifHook(ts *BackgroundTaskManager, ev string, id, v int64) {
-	sc := verifCur.Load()
-	if sc == nil || sc.ts != ts {
+	x, ok := verifScens.Load(ts)
+	if !ok {
 		return
 	}
+	sc := x.(*verifScenario)
 	sc.mu.Lock()
 	defer sc.mu.Unlock()
 	k := -1
@@ -191,6 +211,47 @@ func (sc *verifScenario) body(k int) func(context.Context) {
 		case verifKindInstant:
 		case verifKindDeaf:
 			time.Sleep(b.work)
+		case verifKindStubborn:
+			atomic.AddInt64(&sc.stubEntered, 1)
+			tick := time.NewTicker(time.Millisecond)
+		wait:
+			for {
+				select {
+				case <-ctx.Done():
+					cancelled = true
+					break wait
+				case <-tick.C:
+					// no prioritized task began after this body started and none will: nothing to wait for
+					if atomic.LoadInt32(&sc.prioOver) != 0 && atomic.LoadInt64(&sc.doneSeqMax) <= s0 {
+						break wait
+					}
+					if atomic.LoadInt64(&sc.doneSeqMax) > s0 {
+						break wait // the generic check below waits (bounded) for the cancellation
+					}
+				}
+			}
+			tick.Stop()
+			if !cancelled && atomic.LoadInt64(&sc.doneSeqMax) > s0 {
+				t := time.NewTimer(20 * time.Second)
+				select {
+				case <-ctx.Done():
+					cancelled = true
+				case <-t.C:
+				}
+				t.Stop()
+			}
+			if cancelled {
+				// The context is cancelled and the body is still alive.  While it is, the manager may neither
+				// start another execution of this invocation, nor return, nor give the slot to somebody else;
+				// the entry / return checks of the oracle fire (and release this body) if it does.
+				atomic.AddInt64(&sc.stubHeld, 1)
+				t := time.NewTimer(sc.hold)
+				select {
+				case <-sc.stubRelease:
+				case <-t.C:
+				}
+				t.Stop()
+			}
 		case verifKindSpin:
 			end := time.Now().Add(b.work)
 			for time.Now().Before(end) {
@@ -254,17 +315,36 @@ func verifWaitTimeout(wg *sync.WaitGroup, d time.Duration) bool {
 	}
 }
 
-// verifRun executes one scenario against a fresh manager.  Returns false when the run must stop
-// (goroutines are stuck).
+func verifHold() time.Duration {
+	def := 2500
+	if os.Getenv("VERIF_TIER") == "thorough" {
+		def = 15000
+	}
+	return time.Duration(verifutil.EnvInt("VERIF_C13_HOLD_MS", def)) * time.Millisecond
+}
+
+// verifRun executes one scenario against a fresh manager and emits its trace.  Returns false when
+// the run must stop (goroutines are stuck).
 func verifRun(out *verifutil.Out, cfg verifCfg) bool {
+	sc, cont := verifExec(cfg)
+	verifEmit(out, sc, cont)
+	return cont
+}
+
+// verifExec runs one scenario (cfg.procs == 0: GOMAXPROCS is left alone, so that such scenarios can
+// run in parallel).
+func verifExec(cfg verifCfg) (*verifScenario, bool) {
 	n := len(cfg.invDelay)
 	sc := &verifScenario{cfg: cfg, idmap: map[int64]int{}, lastDecide: map[int]int64{}, failSeen: map[string]int{},
-		aliveInv: make([]int64, n), returned: make([]int32, n), execs: make([]int64, n)}
+		aliveInv: make([]int64, n), returned: make([]int32, n), execs: make([]int64, n),
+		hold: verifHold(), stubRelease: make(chan struct{})}
 	sc.ts = NewBackgroundTaskManager(int64(cfg.conc), cfg.period)
-	old := runtime.GOMAXPROCS(cfg.procs)
-	defer runtime.GOMAXPROCS(old)
-	verifCur.Store(sc)
-	defer verifCur.Store(nil)
+	if cfg.procs > 0 {
+		old := runtime.GOMAXPROCS(cfg.procs)
+		defer runtime.GOMAXPROCS(old)
+	}
+	verifScens.Store(sc.ts, sc)
+	defer verifScens.Delete(sc.ts)
 
 	var wgP, wgI sync.WaitGroup
 	start := make(chan struct{})
@@ -273,6 +353,12 @@ func verifRun(out *verifutil.Out, cfg verifCfg) bool {
 		go func(pairs []verifPrioPair) {
 			defer wgP.Done()
 			<-start
+			if cfg.prioWaitStub > 0 {
+				deadline := time.Now().Add(20 * time.Second)
+				for atomic.LoadInt64(&sc.stubEntered) < int64(cfg.prioWaitStub) && time.Now().Before(deadline) {
+					time.Sleep(100 * time.Microsecond)
+				}
+			}
 			for _, p := range pairs {
 				verifSleep(p.before)
 				seq := atomic.AddInt64(&sc.beginSeq, 1)
@@ -306,10 +392,11 @@ func verifRun(out *verifutil.Out, cfg verifCfg) bool {
 	}
 	close(start)
 	wgP.Wait() // prioritized work has stopped (every Do has its Done)
+	atomic.StoreInt32(&sc.prioOver, 1)
 	cont := true
 	// ---- oracle: once prioritized work stops every invoked task completes ----
-	if !verifWaitTimeout(&wgI, 40*time.Second) {
-		sc.fail("no-progress", "an invocation did not complete within 40s after prioritized work stopped")
+	if !verifWaitTimeout(&wgI, 40*time.Second+sc.hold) {
+		sc.fail("no-progress", fmt.Sprintf("an invocation did not complete within %v after prioritized work stopped", 40*time.Second+sc.hold))
 		cont = false
 	}
 	if cont {
@@ -322,9 +409,15 @@ func verifRun(out *verifutil.Out, cfg verifCfg) bool {
 			time.Sleep(200 * time.Microsecond)
 		}
 	}
-	verifCur.Store(nil)
+	verifScens.Delete(sc.ts)
+	return sc, cont
+}
 
-	// ---- emit the trace for the Lean acceptor ----
+// verifEmit writes the recorded trace of a finished scenario as op lines for the Lean acceptor and
+// reports the oracle's findings.
+func verifEmit(out *verifutil.Out, sc *verifScenario, cont bool) {
+	cfg := sc.cfg
+	n := len(cfg.invDelay)
 	sc.mu.Lock()
 	defer sc.mu.Unlock()
 	out.Comment(fmt.Sprintf("scenario %s conc=%d period=%v procs=%d inv=%d prio=%d", cfg.name, cfg.conc, cfg.period, cfg.procs, n, len(cfg.prio)))
@@ -372,6 +465,12 @@ func verifRun(out *verifutil.Out, cfg verifCfg) bool {
 		out.Distinct(fmt.Sprintf("%x", h.Sum64()))
 	}
 	out.Stats[fmt.Sprintf("max-alive=%d/conc=%d", atomic.LoadInt64(&sc.maxAlive), cfg.conc)]++
+	if cfg.prioWaitStub > 0 {
+		out.Stats["stubborn-bodies-held"] += int(atomic.LoadInt64(&sc.stubHeld))
+		if atomic.LoadInt64(&sc.stubHeld) == 0 {
+			out.Stats["stubborn-scenario-not-exercised"]++
+		}
+	}
 	for _, f := range sc.fails {
 		tr := strings.Join(lines, "; ")
 		if len(tr) > 6000 {
@@ -379,7 +478,23 @@ func verifRun(out *verifutil.Out, cfg verifCfg) bool {
 		}
 		out.Fail(f.sig, fmt.Sprintf("%s | scenario %s conc=%d period=%v inv-kinds=%v prio=%v | trace: %s", f.what, cfg.name, cfg.conc, cfg.period, cfg.invKinds, cfg.prio, tr))
 	}
-	return cont
+}
+
+// verifStubbornCfgs: a body that, once cancelled, stays alive for VERIF_C13_HOLD_MS (or until the oracle
+// has seen a violation).  Prioritized work ends (and its silence period elapses) right at the start of
+// the hold, so a manager that gives up waiting for the body is free to retry / hand the slot on.
+func verifStubbornCfgs() []verifCfg {
+	ms := time.Millisecond
+	stub := []verifBodyCfg{{verifKindStubborn, 0, 0}, {verifKindObedient, ms, 0}}
+	short := []verifBodyCfg{{verifKindObedient, ms, 0}}
+	return []verifCfg{
+		{name: "stubborn-cap1-alone", conc: 1, period: 2 * ms, invDelay: []time.Duration{0},
+			invKinds: [][]verifBodyCfg{stub}, prio: [][]verifPrioPair{{{ms, ms}}}, prioWaitStub: 1},
+		{name: "stubborn-cap1-waiter", conc: 1, period: 0, invDelay: []time.Duration{0, ms},
+			invKinds: [][]verifBodyCfg{stub, short}, prio: [][]verifPrioPair{{{2 * ms, ms}}}, prioWaitStub: 1},
+		{name: "stubborn-cap2-waiter", conc: 2, period: ms, invDelay: []time.Duration{0, 0, ms},
+			invKinds: [][]verifBodyCfg{stub, stub, short}, prio: [][]verifPrioPair{{{2 * ms, ms}, {0, 0}}}, prioWaitStub: 2},
+	}
 }
 
 func verifUs(rnd *verifutil.Rand, lo, hi int64) time.Duration {
@@ -469,6 +584,27 @@ func TestVerifC13(t *testing.T) {
 	defer out.Close()
 	VerifTrace = verifHook
 	defer func() { VerifTrace = nil }()
+	// the stubborn-body scenarios run in parallel (each holds for VERIF_C13_HOLD_MS on correct code)
+	stubs := verifStubbornCfgs()
+	res := make([]*verifScenario, len(stubs))
+	conts := make([]bool, len(stubs))
+	var wg sync.WaitGroup
+	for i := range stubs {
+		wg.Add(1)
+		go func(i int) {
+			defer wg.Done()
+			res[i], conts[i] = verifExec(stubs[i])
+		}(i)
+	}
+	wg.Wait()
+	stop := false
+	for i := range stubs {
+		verifEmit(out, res[i], conts[i])
+		stop = stop || !conts[i]
+	}
+	if stop {
+		return
+	}
 	for _, cfg := range verifHandCfgs() {
 		if !verifRun(out, cfg) {
 			return
